@@ -92,7 +92,11 @@ def main():
                 rec = dict(logic=Meta.name, rule=info['name'], kind=kind,
                            operands=[str(A2), str(B2)] if kind != 'quant' else [str(proto)], ok=True)
                 try:
-                    for var in info['variants']:
+                    variants = list(info['variants'])
+                    if kind == 'quant' and info.get('ticking') and k == 0:
+                        # witness rules once more with the constants mentioned in descending order
+                        variants += [dict(v, setup='consts_desc') for v in info['variants'] if v['setup'] == 'consts']
+                    for var in variants:
                         applied, env = pr.apply_rule(logic, info, ctx, var['setup'], s)
                         w0 = env['w']
                         exp_all, got_all = [], []
